@@ -110,6 +110,32 @@ def gen_coord(rng, c, ties=True):
 
 DTYPES = ['float64', 'float64', 'float64', 'float32', 'complex128', 'int64', 'str']
 
+LAYOUTS = ['C', 'F', 'transposed', 'strided', 'negstride']
+LAYOUT_SRC = '''
+def relayout(f, layout):
+    """The same array (shape, dtype, values) with another memory layout: C order, Fortran order, a
+    transposed view of a C array, a strided view (every second entry of a larger buffer) or a view with
+    negative strides.  Interpolation must not depend on it."""
+    import numpy as np
+    f = np.asarray(f)
+    if layout == 'F':
+        g = np.asfortranarray(f)
+    elif layout == 'transposed':
+        g = np.ascontiguousarray(f.transpose()).transpose()
+    elif layout == 'strided':
+        big = np.zeros(tuple(2 * n for n in f.shape), dtype=f.dtype)
+        g = big[tuple(slice(None, None, 2) for _ in f.shape)]
+        g[...] = f
+    elif layout == 'negstride':
+        g = np.ascontiguousarray(f[tuple(slice(None, None, -1) for _ in f.shape)])[
+            tuple(slice(None, None, -1) for _ in f.shape)]
+    else:
+        g = np.ascontiguousarray(f)
+    assert g.shape == f.shape and g.dtype == f.dtype and bool(np.all(g == f))
+    return g
+'''
+exec(LAYOUT_SRC)
+
 
 def measure_variants():
     """Which of the two recorded defects the current code exhibits (model variant switches)."""
@@ -131,7 +157,7 @@ def measure_variants():
     return int_raises, mesh1_raises
 
 
-def run_interp(kind, schemes, cvs, dtype, vals_re, vals_im, conv, pts, mesh, use_out):
+def run_interp(kind, schemes, cvs, dtype, vals_re, vals_im, conv, pts, mesh, use_out, layout='C'):
     """Run the implementation; returns the Coq term of type outc and a python summary."""
     from odl.discr.discr_utils import nearest_interpolator, linear_interpolator, per_axis_interpolator
     from odl.discr.grid import sparse_meshgrid
@@ -143,6 +169,7 @@ def run_interp(kind, schemes, cvs, dtype, vals_re, vals_im, conv, pts, mesh, use
         f = (np.array(vals_re) + 1j * np.array(vals_im)).reshape(shape)
     else:
         f = np.array(vals_re).astype(dtype).reshape(shape)
+    f = relayout(f, layout)
     cv = [np.array(c) for c in cvs]
     if kind == 'nearest':
         itp = nearest_interpolator(f, cv)
@@ -225,8 +252,11 @@ def interp_cases(rng, tier, variants):
         d = rng.choice([1, 1, 2, 2, 3])
         dtype = rng.choice(DTYPES)
         dyadic = dtype in ('float32', 'complex128') or rng.random() < 0.8
-        maxn = {1: 6, 2: 4, 3: 3}[d]
+        maxn = {1: 6, 2: 5, 3: 4}[d]
         shape = [1 if rng.random() < 0.06 else rng.randint(2, maxn) for _ in range(d)]
+        if d > 1 and rng.random() < 0.6:
+            shape = rng.sample(range(2, maxn + 1), d)          # pairwise distinct axis lengths
+        layout = 'C' if d == 1 else rng.choice(LAYOUTS)
         cvs = [gen_cvec(rng, n, dyadic) for n in shape]
         kind = rng.choice(['nearest', 'linear', 'per_axis', 'per_axis'])
         if dtype in ('int64', 'str') and rng.random() < 0.7:
@@ -270,12 +300,12 @@ def interp_cases(rng, tier, variants):
             if use_out == 'badshape':
                 osh = osh[:-1] + [osh[-1] + 1]
             outarg = (osh, use_out != 'baddtype')
-        out, summ = run_interp(kind, schemes, cvs, dtype, vre, vim, conv, pts, mesh, use_out)
+        out, summ = run_interp(kind, schemes, cvs, dtype, vre, vim, conv, pts, mesh, use_out, layout)
         term = case_term(kind, schemes, cvs, dtype, vre, vim, conv, pts, mesh, variants, out, outarg)
         desc = {'kind': kind, 'schemes': schemes, 'cvs': cvs, 'dtype': dtype, 'values': vre, 'imag': vim,
-                'conv': conv, 'points': pts, 'mesh': mesh, 'out_arg': use_out, 'branches': branches,
+                'layout': layout, 'conv': conv, 'points': pts, 'mesh': mesh, 'out_arg': use_out, 'branches': branches,
                 'impl': summ if isinstance(summ, str) else 'values'}
-        key = (kind, tuple(schemes), str(cvs), dtype, tuple(vre), tuple(vim), conv, str(pts), str(mesh), use_out)
+        key = (kind, tuple(schemes), str(cvs), dtype, tuple(vre), tuple(vim), conv, str(pts), str(mesh), use_out, layout)
         cs.add(term, desc, key if len(set(vre)) > 1 else None)
     return cs
 
@@ -594,9 +624,12 @@ def resample_cases(rng, tier, variants):
     cs2 = C.CaseSet('deform', ['C15.Syntax', 'C15.Model', 'C15.Call', 'C15.Corr'], 'check', 'case')
     n_cases = 120 if tier == 'quick' else 800
     for it in range(n_cases):
-        d = rng.choice([1, 1, 2, 2, 3])
-        maxn = {1: 6, 2: 4, 3: 3}[d]
+        d = rng.choice([1, 2, 2, 3])
+        maxn = {1: 6, 2: 5, 3: 4}[d]
         shape = [rng.randint(2, maxn) for _ in range(d)]
+        if d > 1 and rng.random() < 0.7:
+            shape = rng.sample(range(2, maxn + 1), d)          # pairwise distinct axis lengths
+        order = rng.choice([None, 'C', 'F', 'F']) if d > 1 else None     # memory layout of the element
         def oddpart(m):
             while m % 2 == 0:
                 m //= 2
@@ -619,7 +652,7 @@ def resample_cases(rng, tier, variants):
         exec(make_callable_src('vec', ex, None, False, d), env)
         use_out = rng.random() < 0.3
         try:
-            x = dom.element(env['f'])
+            x = dom.element(env['f'], order=order)
             op = odl.Resampling(dom, ran, interp)
             if use_out:
                 y = ran.element(np.full(shape2, np.nan))
@@ -637,12 +670,13 @@ def resample_cases(rng, tier, variants):
                 % (C.qss(cvs), ex.coq(), C.lst([SCH[s] for s in schemes]), C.qss(mesh),
                    C.qs(np.asarray(y).ravel().tolist())))
         cs.add(term, {'op': 'Resampling', 'domain': [lo, hi, shape], 'range_shape': shape2, 'interp': interp,
-                      'callable': ex.src(True), 'out_arg': use_out, 'schemes': schemes, 'family': 'resample'},
-               ('res', str(lo), str(hi), tuple(shape), tuple(shape2), str(interp), ex.src(True)))
+                      'callable': ex.src(True), 'out_arg': use_out, 'schemes': schemes, 'family': 'resample',
+                      'order': order},
+               ('res', str(lo), str(hi), tuple(shape), tuple(shape2), str(interp), ex.src(True), order))
         # linear_deform: template values at points + displacement (point-array convention)
         from odl.deform import linear_deform
         vals = [float(rng.randint(-9, 9)) for _ in range(int(np.prod(shape)))]
-        templ = dom.element(np.array(vals).reshape(shape))
+        templ = dom.element(np.array(vals).reshape(shape), order=order)
         disp = [np.array([rng.choice([0.0, 0.0, 0.25, -0.25, 0.5, -0.5, 1.0, -1.5, 2.0]) * side[k]
                           for _ in range(int(np.prod(shape)))]).reshape(shape) for k in range(d)]
         dfield = dom.tangent_bundle.element(disp)
@@ -660,9 +694,9 @@ def resample_cases(rng, tier, variants):
         term2 = case_term('per_axis', schemes, cvs, 'float64', vals, [], 'array', pts, [], variants, out)
         cs2.add(term2, {'op': 'linear_deform', 'domain': [lo, hi, shape], 'interp': interp, 'values': vals,
                         'out_arg': use_out2, 'kind': 'per_axis', 'schemes': schemes, 'cvs': cvs, 'dtype': 'float64',
-                        'imag': [], 'conv': 'array', 'points': pts, 'mesh': [], 'via_deform': True,
+                        'imag': [], 'conv': 'array', 'points': pts, 'mesh': [], 'via_deform': True, 'order': order,
                         'displacement': [dk.ravel().tolist() for dk in disp]},
-                ('deform', str(lo), str(hi), tuple(shape), str(interp), tuple(vals), str(pts)))
+                ('deform', str(lo), str(hi), tuple(shape), str(interp), tuple(vals), str(pts), order))
     return [cs, cs2]
 
 
@@ -750,6 +784,13 @@ def _rand_values(rng, shape, dtype):
                                                    tuple(shape))
 
 
+def _probe_shape(rng, d):
+    maxn = {1: 6, 2: 5, 3: 4}[d]
+    if d > 1 and rng.random() < 0.7:
+        return rng.sample(range(2, maxn + 1), d)              # pairwise distinct axis lengths
+    return [rng.randint(2, maxn) for _ in range(d)]
+
+
 def probes(rng, tier):
     out = []
     reps = 1 if tier == 'quick' else 5
@@ -762,12 +803,13 @@ def probes(rng, tier):
                 for dtype in ('float64', 'float32', 'complex128', 'int64', 'str'):
                     if dtype in ('int64', 'str') and kind != 'nearest':
                         continue          # arithmetic on the values: only 'nearest' is defined for these
-                    shape = [rng.randint(2, {1: 6, 2: 4, 3: 3}[d]) for _ in range(d)]
+                    shape = _probe_shape(rng, d)
                     cvs = [gen_cvec(rng, n) for n in shape]
                     schemes = [rng.choice(['nearest', 'linear']) for _ in range(d)]
                     for conv in ('single', 'array', 'mesh'):
-                        snip = REF + ('cvs = %r\nf = %s\nitp = make(%r, %r, f, cvs)\n' % (
-                            cvs, _rand_values(rng, shape, dtype), kind, schemes))
+                        layout = 'C' if d == 1 else rng.choice(LAYOUTS)
+                        snip = REF + LAYOUT_SRC + ('cvs = %r\nf = relayout(%s, %r)\nitp = make(%r, %r, f, cvs)\n' % (
+                            cvs, _rand_values(rng, shape, dtype), layout, kind, schemes))
                         if conv == 'mesh':
                             snip += ('got = np.asarray(itp(sparse_meshgrid(*[np.array(c) for c in cvs])))\n'
                                      'observed = got.tolist(); expected = f.tolist()\n'
@@ -783,8 +825,8 @@ def probes(rng, tier):
                                      'observed = call(itp, %r, pts, %d); expected = [complex(v) for v in f.ravel()]\n'
                                      'ok = observed == expected\n' % (conv, d))
                         _probe(out, 'node-%s-%s-%s' % (kind, dtype, conv),
-                               '%s interpolator (%s values, %d-d, %s input) reproduces the node values exactly'
-                               % (kind, dtype, d, conv), snip)
+                               '%s interpolator (%s values, %d-d, %s input, %s memory layout) reproduces the node '
+                               'values exactly' % (kind, dtype, d, conv, layout), snip)
 
     # ---- 2. values anywhere (inside, ties, outside) against the textbook rule; conventions agree
     npts = 6 if tier == 'quick' else 10
@@ -792,7 +834,8 @@ def probes(rng, tier):
         for d in (1, 2, 3):
             for kind, _m in kinds:
                 dtype = rng.choice(['float64', 'float64', 'float32', 'complex128'])
-                shape = [rng.randint(2, {1: 6, 2: 4, 3: 3}[d]) for _ in range(d)]
+                shape = _probe_shape(rng, d)
+                layout = 'C' if d == 1 else rng.choice(LAYOUTS[1:] + ['C'])
                 cvs = [gen_cvec(rng, n) for n in shape]
                 schemes = [rng.choice(['nearest', 'linear']) for _ in range(d)]
                 eff = {'nearest': ['nearest'] * d, 'linear': ['linear'] * d, 'per_axis': schemes}[kind]
@@ -800,8 +843,9 @@ def probes(rng, tier):
                 mesh = [sorted(set(gen_coord(rng, c)[0] for _ in range(rng.randint(2, 3)))) for c in cvs]
                 if len(mesh[0]) == 1 and d > 1:
                     mesh[0].append(mesh[0][0] + 0.125)
-                snip = REF + ('cvs = %r\nf = %s\nschemes = %r\nitp = make(%r, schemes, f, cvs)\npts = %r\nmesh = %r\n'
-                              % (cvs, _rand_values(rng, shape, dtype), eff, kind, pts, mesh))
+                snip = REF + LAYOUT_SRC + (
+                    'cvs = %r\nf = relayout(%s, %r)\nschemes = %r\nitp = make(%r, schemes, f, cvs)\npts = %r\nmesh = %r\n'
+                    % (cvs, _rand_values(rng, shape, dtype), layout, eff, kind, pts, mesh))
                 snip += ('expected = [ref_interp(schemes, cvs, f, p) for p in pts]\n'
                          'a = call(itp, "array", pts, %d); b = call(itp, "single", pts, %d)\n'
                          'mp = list(itertools.product(*mesh))\n'
@@ -812,23 +856,26 @@ def probes(rng, tier):
                          '      and close(m, [ref_interp(schemes, cvs, f, p) for p in mp], 1e-12)\n'
                          '      and m == call(itp, "array", mp, %d))\n' % (d, d, d))
                 _probe(out, 'textbook-%s-d%d' % (kind if kind != 'per_axis' else 'peraxis', d),
-                       '%s %s (%s, %d-d): closest node (right on ties) / multilinear blend / one-cell decay outside, '
-                       'identical for single points, point arrays, mesh grids and out=' % (kind, eff, dtype, d), snip)
+                       '%s %s (%s, %d-d, %s memory layout): closest node (right on ties) / multilinear blend / one-cell '
+                       'decay outside, identical for single points, point arrays, mesh grids and out='
+                       % (kind, eff, dtype, d, layout), snip)
 
     # ---- 3. linear interpolation is exact for affine functions inside the hull
     for _ in range(3 * reps):
         for d in (1, 2, 3):
             dtype = rng.choice(['float64', 'float32', 'complex128'])
-            shape = [rng.randint(2, {1: 6, 2: 4, 3: 3}[d]) for _ in range(d)]
+            shape = _probe_shape(rng, d)
             cvs = [gen_cvec(rng, n) for n in shape]
             coef = [float(rng.randint(-4, 4)) for _ in range(d + 1)]
             pts = []
             for _k in range(npts):
                 pts.append([c[0] + (c[-1] - c[0]) * rng.randint(0, 32) / 32.0 for c in cvs])
-            snip = REF + ('cvs = %r\ncoef = %r\npts = %r\n' % (cvs, coef, pts))
+            snip = REF + LAYOUT_SRC + ('cvs = %r\ncoef = %r\npts = %r\nLAYOUT = %r\n'
+                                       % (cvs, coef, pts, 'C' if d == 1 else rng.choice(LAYOUTS)))
             snip += ('aff = lambda p: coef[0] + sum(a * x for a, x in zip(coef[1:], p))\n'
                      'f = np.array([aff(p) for p in itertools.product(*cvs)]).reshape(%r).astype(%r)\n'
                      'if f.dtype.kind == "c": f = f * (1 + 2j)\n'
+                     'f = relayout(f, LAYOUT)\n'
                      'sc = (1 + 2j) if f.dtype.kind == "c" else 1\n'
                      'expected = [complex(aff(p) * sc) for p in pts]\n'
                      'observed = call(linear_interpolator(f, [np.array(c) for c in cvs]), "array", pts, %d)\n'
@@ -870,21 +917,24 @@ def probes(rng, tier):
                'sampling a %s callable (%s, %d-d) via %s gives the callable\'s values at the grid points'
                % (flavour, dtype, d, mode), snip)
 
-    # ---- 5. operators built on the interpolators
+    # ---- 5. operators built on the interpolators (elements in C and Fortran memory order)
     for _ in range(2 * reps):
-        for d in (1, 2):
-            shape = [rng.randint(2, 4) for _ in range(d)]
-            interp = rng.choice(['nearest', 'linear'] + ([['nearest', 'linear'], ['linear', 'nearest']] if d == 2 else []))
+        for d in (1, 2, 3):
+            shape = _probe_shape(rng, d)
+            mixes = [['nearest'] * d, ['linear'] * d] + ([[rng.choice(['nearest', 'linear']) for _k in range(d)]
+                                                           for _m in range(2)] if d > 1 else [])
+            schemes = rng.choice(mixes)
+            interp = schemes[0] if len(set(schemes)) == 1 and rng.random() < 0.5 else schemes
+            order = None if d == 1 else rng.choice(['C', 'F', 'F'])
             vals = [float(rng.randint(-9, 9)) for _ in range(int(np.prod(shape)))]
-            base = ('import numpy as np, odl, warnings\nwarnings.simplefilter("ignore")\n'
-                    'space = odl.uniform_discr(%r, %r, %r)\nx = space.element(np.array(%r).reshape(%r))\n'
-                    % ([0.0] * d, [float(n) for n in shape], shape, vals, tuple(shape)))
+            base = (REF + 'space = odl.uniform_discr(%r, %r, %r)\nx = space.element(np.array(%r).reshape(%r), order=%r)\n'
+                    % ([0.0] * d, [float(n) for n in shape], shape, vals, tuple(shape), order))
             _probe(out, 'resampling-same-grid-identity',
-                   'Resampling(space, space, %r) is the identity (node reproduction)' % (interp,),
+                   'Resampling(space, space, %r) is the identity (node reproduction; element order %r)' % (interp, order),
                    base + 'observed = odl.Resampling(space, space, %r)(x).asarray()\nexpected = x.asarray()\n'
                           'ok = bool(np.all(observed == expected))\n' % (interp,))
             _probe(out, 'linear-deform-zero-displacement',
-                   'linear_deform with zero displacement returns the template (%r)' % (interp,),
+                   'linear_deform with zero displacement returns the template (%r, element order %r)' % (interp, order),
                    base + 'from odl.deform import linear_deform\n'
                           'observed = linear_deform(x, space.tangent_bundle.zero(), interp=%r)\nexpected = x.asarray()\n'
                           'ok = bool(np.all(observed == expected))\n' % (interp,))
@@ -893,6 +943,30 @@ def probes(rng, tier):
                    base + 'op = odl.Resampling(space, space, %r)\ny = space.element(np.full(%r, np.nan))\n'
                           'op(x, out=y)\nobserved = y.asarray(); expected = x.asarray()\n'
                           'ok = bool(np.all(observed == expected))\n' % (interp, tuple(shape)))
+            # onto another grid / with a displacement: against the textbook reference
+            shape2 = [rng.choice([m for m in (1, 2, 3, 4, 6, 8) if not (k == 0 and m == 1 and d > 1)]) for k in range(d)]
+            _probe(out, 'resampling-textbook-%s' % ('order-%s' % order if order else '1d'),
+                   'Resampling onto shape %r with %r (element order %r) equals the textbook interpolation of the '
+                   'element at the target grid points' % (shape2, interp, order),
+                   base + 'ran = odl.uniform_discr(%r, %r, %r)\n'
+                          'observed = [complex(v) for v in odl.Resampling(space, ran, %r)(x).asarray().ravel()]\n'
+                          'cvs = [c.tolist() for c in space.grid.coord_vectors]\n'
+                          'expected = [ref_interp(%r, cvs, x.asarray(), p) for p in ran.points()]\n'
+                          'ok = close(observed, expected, 1e-12)\n'
+                   % ([0.0] * d, [float(n) for n in shape], shape2, interp, schemes))
+            disp = [[rng.choice([0.0, 0.25, -0.25, 0.5, -0.5, 1.0, -1.5]) for _k in range(int(np.prod(shape)))]
+                    for _a in range(d)]
+            _probe(out, 'linear-deform-textbook-%s' % ('order-%s' % order if order else '1d'),
+                   'linear_deform (%r, template order %r) equals the textbook interpolation of the template at the '
+                   'displaced points' % (interp, order),
+                   base + 'from odl.deform import linear_deform\n'
+                          'disp = space.tangent_bundle.element([np.array(v).reshape(%r) for v in %r])\n'
+                          'observed = [complex(v) for v in np.asarray(linear_deform(x, disp, interp=%r)).ravel()]\n'
+                          'cvs = [c.tolist() for c in space.grid.coord_vectors]\n'
+                          'pts = (space.points() + np.stack([np.array(v) for v in %r], axis=1)).tolist()\n'
+                          'expected = [ref_interp(%r, cvs, x.asarray(), p) for p in pts]\n'
+                          'ok = close(observed, expected, 1e-12)\n'
+                   % (tuple(shape), disp, interp, disp, schemes))
 
     # ---- 6. the recorded defects, probed on their own inputs
     for kind in ('nearest', 'linear', 'per_axis'):
@@ -974,7 +1048,8 @@ def _interp_snippet(desc):
         return None
     else:
         f = 'np.array(%r, dtype=%r).reshape(%r)' % (desc['values'], desc['dtype'], tuple(len(c) for c in desc['cvs']))
-    snip = REF + 'cvs = %r\nf = %s\nschemes = %r\nitp = make(%r, schemes, f, cvs)\n' % (desc['cvs'], f, eff, kind)
+    snip = (REF + LAYOUT_SRC + 'cvs = %r\nf = relayout(%s, %r)\nschemes = %r\nitp = make(%r, schemes, f, cvs)\n'
+            % (desc['cvs'], f, desc.get('layout', 'C'), eff, kind))
     if desc['conv'] == 'mesh':
         snip += ('mesh = %r\npts = list(itertools.product(*mesh))\n'
                  'observed = [complex(v) for v in np.asarray(itp(sparse_meshgrid(*[np.array(x) for x in mesh]))).ravel()]\n'
@@ -988,25 +1063,26 @@ def _interp_snippet(desc):
 def _resample_snippet(desc):
     lo, hi, shape = desc['domain']
     return REF + ('dom = odl.uniform_discr(%r, %r, %r); ran = odl.uniform_discr(%r, %r, %r)\n'
-                  'x = dom.element(lambda x: %s)\n'
+                  'x = dom.element(lambda x: %s, order=%r)\n'
                   'observed = [complex(v) for v in odl.Resampling(dom, ran, %r)(x).asarray().ravel()]\n'
                   'cvs = [c.tolist() for c in dom.grid.coord_vectors]\n'
                   'expected = [ref_interp(%r, cvs, x.asarray(), p) for p in ran.points()]\n'
                   'ok = close(observed, expected, 1e-12)\n'
-                  % (lo, hi, shape, lo, hi, desc['range_shape'], desc['callable'], desc['interp'], desc['schemes']))
+                  % (lo, hi, shape, lo, hi, desc['range_shape'], desc['callable'], desc.get('order'), desc['interp'],
+                     desc['schemes']))
 
 
 def _deform_snippet(desc):
     lo, hi, shape = desc['domain']
     return REF + ('from odl.deform import linear_deform\n'
-                  'dom = odl.uniform_discr(%r, %r, %r)\nt = dom.element(np.array(%r).reshape(%r))\n'
+                  'dom = odl.uniform_discr(%r, %r, %r)\nt = dom.element(np.array(%r).reshape(%r), order=%r)\n'
                   'disp = dom.tangent_bundle.element([np.array(v).reshape(%r) for v in %r])\n'
                   'observed = [complex(v) for v in np.asarray(linear_deform(t, disp, interp=%r)).ravel()]\n'
                   'cvs = [c.tolist() for c in dom.grid.coord_vectors]\n'
                   'expected = [ref_interp(%r, cvs, t.asarray(), p) for p in %r]\n'
                   'ok = close(observed, expected, 1e-12)\n'
-                  % (lo, hi, shape, desc['values'], tuple(shape), tuple(shape), desc['displacement'], desc['interp'],
-                     desc['schemes'], desc['points']))
+                  % (lo, hi, shape, desc['values'], tuple(shape), desc.get('order'), tuple(shape), desc['displacement'],
+                     desc['interp'], desc['schemes'], desc['points']))
 
 
 def search(rng, broken):
